@@ -70,7 +70,7 @@ int main(int argc, char** argv) {
 		static bool init = false; if(!init) { init = true; auto& a = st().args; for(std::size_t i = 0; i + 1 < a.size(); ++i) { if(a[i] == "--maxext") cfg.max_ext = std::atoi(a[i + 1].c_str()); if(a[i] == "--maxops") cfg.max_ops = std::atoi(a[i + 1].c_str()); } }
 		dg = 1469598103934665603ULL; Prog p = gen_prog(c.rng, cfg);
 		switch(p.root.size()) { case 1: one<1>(c, p); break; case 2: one<2>(c, p); break; case 3: one<3>(c, p); break; default: one<4>(c, p); break; }
-		if(st().case_viol) return;
+		// (the digest is emitted also when the checking pointer recorded something: a recorded finding must not switch off the differential)
 		char b[64]; std::snprintf(b, sizeof b, "G %ld %016llx", c.k, static_cast<unsigned long long>(dg)); emit(b);
 		count("fancy_dereferences", pstats().derefs); pstats().derefs = 0;
 	});
